@@ -21,6 +21,7 @@ inductive Op
   | setRow (i : Nat) (vals : List Nat)      -- `m[i].copy_from_slice(vals)`
   | setCell (i j v : Nat)                   -- `m[MatrixCoordinates::new(i, j)] = v`
   | iterMutSet (v : Nat)                    -- `for (k, row) in m.iter_mut().enumerate() { row[0] = v + k % 2 }`
+  | iterMutRevSet (v : Nat)                 -- `for (k, row) in m.iter_mut().rev().enumerate() { row[0] = v + k % 2 }`
   | clone                                   -- continue with `m.clone()`
 deriving Repr
 
@@ -50,6 +51,9 @@ def step (m : Mat Nat C) : Op → Except String (Mat Nat C)
   | .iterMutSet v =>
     if C = 0 then .error "index out of bounds" else
     .ok ((List.range m.rows).foldl (fun d k => d.set k 0 (v + k % 2)) m)
+  | .iterMutRevSet v =>
+    if C = 0 then .error "index out of bounds" else
+    .ok ((List.range m.rows).foldl (fun d k => d.set (m.rows - 1 - k) 0 (v + k % 2)) m)
   | .clone => .ok m
 
 /-- run an operation list; a panicking operation leaves the matrix unchanged -/
